@@ -40,13 +40,17 @@ type EngScenario struct {
 	Kinds    [][]string `json:"kinds"`    // realisation of each single edge (filled in by the harness)
 	Lookups  []int      `json:"lookups"`  // post-run GetComponentByName calls
 	Seed     int64      `json:"seed"`
-	Sparse   bool       `json:"sparse"`  // snapshots list only non-empty entries (large N)
-	Procs    []bool     `json:"procs"`   // user post-processors that are components themselves; true = LazyInit
-	Mode     []string   `json:"mode"`    // per node: normal | beforeNil | shortcut (lifecycle imposed by the rig processor)
-	Quiet    bool       `json:"quiet"`   // a user instantiation-aware processor ordered FIRST that answers false to PostProcessAfterInstantiation
-	Runners  []int      `json:"runners"` // nodes that are application runners (held by the App's runner slice)
-	ROrder   []int      `json:"rorder"`  // the runner nodes in candidate iteration order (computed here from order)
-	All      bool       `json:"all"`     // finally look every pool component up through Factory.GetComponents(InterfaceType(Nd))
+	Sparse   bool       `json:"sparse"`   // snapshots list only non-empty entries (large N)
+	Procs    []bool     `json:"procs"`    // user post-processors that are components themselves; true = LazyInit
+	Mode     []string   `json:"mode"`     // per node: normal | beforeNil | shortcut (lifecycle imposed by the rig processor)
+	Quiet    bool       `json:"quiet"`    // a user instantiation-aware processor ordered FIRST that answers false to PostProcessAfterInstantiation
+	Runners  []int      `json:"runners"`  // nodes that are application runners (held by the App's runner slice)
+	ROrder   []int      `json:"rorder"`   // the runner nodes in candidate iteration order (computed here from order)
+	All      bool       `json:"all"`      // finally look every pool component up through Factory.GetComponents(InterfaceType(Nd))
+	RawOrder bool       `json:"rawOrder"` // do not wrap the definition registry: candidates come in the real registry's own order
+	KSeed    int64      `json:"kseed"`    // seed of the edge realisation (which field / tag form carries each edge); 0 = Seed.
+	// The realisation decides the declaration order of a holder's injection points, i.e. it is part of the component SET;
+	// permutations of one scenario (C10) keep it fixed and vary Seed / order / regOrder only.
 }
 
 // quietProc keeps the library's default answer (false) to PostProcessAfterInstantiation.  That only skips ITS OWN
@@ -493,7 +497,10 @@ func chooseKinds(sc *EngScenario, rnd *rand.Rand) {
 }
 
 func runEngScenario(sc *EngScenario) []map[string]any {
-	rnd := rand.New(rand.NewSource(sc.Seed))
+	if sc.KSeed == 0 {
+		sc.KSeed = sc.Seed
+	}
+	rnd := rand.New(rand.NewSource(sc.KSeed))
 	if sc.Runners == nil {
 		sc.Runners = []int{}
 	}
@@ -577,7 +584,11 @@ func runEngScenario(sc *EngScenario) []map[string]any {
 	}
 	inner := support.DefaultSingletonComponentRegistry()
 	e.reg = inner
-	f := factory.NewWithRegistries(&permReg{support.DefaultDefinitionRegistry(), e}, &traceReg{e, inner})
+	var defReg container.DefinitionRegistry = &permReg{support.DefaultDefinitionRegistry(), e}
+	if sc.RawOrder {
+		defReg = support.DefaultDefinitionRegistry()
+	}
+	f := factory.NewWithRegistries(defReg, &traceReg{e, inner})
 	ap := app.NewApp()
 	var ordered []any
 	if len(sc.RegOrder) == sc.N {
